@@ -603,7 +603,10 @@ pub fn main(args: &[String]) -> i32 {
         let c = &cases[i];
         // after that many cases that ran into the no-progress deadline the verdict is clear; do not wait for the rest
         if misses.load(Ordering::SeqCst) >= max_misses { writeln!(w, "SKIP {}", c.id).unwrap(); skipped += 1; continue; }
-        let r = run_case(c, &exe, &lf, deadline, false)?;
+        let r = match run_case(c, &exe, &lf, deadline, false) {
+          Ok(r) => r,
+          Err(e) => { misses.store(1 << 30, Ordering::SeqCst); return Err(e); }   // the others stop too
+        };
         if r.deadline != 0 { misses.fetch_add(1, Ordering::SeqCst); }
         write_case(&mut w, c, &r);
         ran += 1;
